@@ -174,6 +174,13 @@ def main(tier):
             sweep(ck, L, 'ElectronConfig', ec, Zs, shell_m, st)
             eb = {(Z, s): float(v) for Z, d in cp.items() for s, v in enumerate(d['occ']) if v > 0}
             sweep(ck, L, 'ElectronConfig_Biggs', eb, Zs, shell_m, st)
+            if config == 'shipped' and fl == 'plain':
+                # the tables are those of data/*.dat of the tree, whatever lies around in it or is set in the environment of the build
+                _zz, _ss = [x.ravel() for x in np.meshgrid(np.arange(1, 121), np.asarray(shell_m)[:12], indexing='ij')]
+                _zl, _ll = [x.ravel() for x in np.meshgrid(np.arange(1, 121), np.asarray(line_m)[::7], indexing='ij')]
+                st['calls_in_builds_of_dirty_trees'] = execlib.dirty_tree(ck, 'c01', config, [('AtomicWeight', np.arange(1, 121)), ('ElementDensity', np.arange(1, 121)), ('EdgeEnergy', _zz, _ss), ('FluorYield', _zz, _ss),
+                                                                                              ('JumpFactor', _zz, _ss), ('AtomicLevelWidth', _zz, _ss), ('LineEnergy', _zl, _ll), ('RadRate', _zl, _ll)])
+                st['calls'] += st['calls_in_builds_of_dirty_trees']
             if config == 'kissel' and st['per_function'].get('ElectronConfig@kissel', {}).get('positive', 0) < 500:
                 raise common.Inconclusive('regenerated Kissel configuration yields too few occupancies')
     if st['positive'] < 20000:
